@@ -191,8 +191,8 @@ def build(js):
     return prf
 
 
-def run_check(thy, js, no_gaps, compute_only=False, want_ths=False):
-    prf = build(js)
+def run_check(thy, js, no_gaps, compute_only=False, want_ths=False, prf=None):
+    prf = build(js) if prf is None else prf     # prf given: ONE object checked repeatedly (history events)
     rpt = ProofReport()
     try:
         res = thy.check_proof(prf, rpt, no_gaps=no_gaps, compute_only=compute_only)
@@ -222,11 +222,11 @@ def positions(items, prefix):
 _ext_n = [0]
 
 
-def run_extend(base, js, stated_j, with_proof=True):
+def run_extend(base, js, stated_j, with_proof=True, prf=None):
     thy = copy.copy(base)
     name = "TX"                    # the name a `theorem TX` step of the supplied proof cites: the extension's own name
     stated = dec_s(stated_j)
-    ext = extension.Theorem(name, stated, build(js) if with_proof else None)
+    ext = extension.Theorem(name, stated, (build(js) if prf is None else prf) if with_proof else None)
     axiom = False
     try:
         rep = thy.checked_extend([ext])
@@ -291,12 +291,27 @@ def read_vectors(path):
         yield v
 
 
+HIST_OFFSET = 5 * 10 ** 6      # tids of history events (below the 10^7 of the binding self-test)
+PRIMS = {"assume", "implies_intr", "implies_elim", "reflexive", "symmetric", "transitive", "combination", "equal_intr",
+         "equal_elim", "beta_conv", "abstraction", "forall_intr", "forall_elim", "substitution", "subst_type"}
+
+
+def _wants_history(js, n):
+    """every object with a step that is not a primitive rule (macros, theorem citations, placeholders, blocks), and every
+    fourth of the others"""
+    def rules(items):
+        for it in items:
+            yield it["rule"]
+            yield from rules(it["sub"])
+    return n % 4 == 0 or any(r not in PRIMS for r in rules(js))
+
+
 def replay(vec_path, out_path, tid0=0, src="tlc", fx_path=None):
     side, snap = setup()
     fx = json.load(open(fx_path)) if fx_path else None
     if fx is None:
         raise SystemExit("replay needs the features file")
-    n = 0
+    n = nh = 0
     with open(out_path, "w") as f:
         for v in read_vectors(vec_path):
             js = norm_items(v["prf"])
@@ -312,7 +327,20 @@ def replay(vec_path, out_path, tid0=0, src="tlc", fx_path=None):
                 ev["ng"], ev["g"], ev["co"] = na, na, {"oc": "n/a"}
                 ev["exts"] = [run_extend(snap, js, s, with_proof=False) for s in v["exts"]]
             f.write(json.dumps(ev, separators=(",", ":")) + "\n")
-    print("replayed", n, "vectors")
+            if js and _wants_history(js, n):
+                # HISTORY of one proof object: checked first where everything is permitted (the global theory, which has
+                # every cited theorem; gaps allowed), then -- the SAME object -- in the strict contexts.  The events carry the
+                # same fields and are judged by the same clauses: a verdict must rest on steps verified in THIS check.
+                prf = build(js)
+                run_check(theory.thy, js, False, prf=prf)
+                h = {"tid": tid0 + n + HIST_OFFSET, "key": "hist:%s" % digest([js, v["exts"]]), "src": src + "+hist", "fx": fx, "prf": js}
+                h["g"] = run_check(snap, js, False, want_ths=True, prf=prf)
+                h["ng"] = run_check(side, js, True, prf=prf)
+                h["co"] = {"oc": run_check(side, js, False, compute_only=True, prf=prf)["oc"]}
+                h["exts"] = [run_extend(snap if k % 2 == 0 else side, js, s, prf=prf) for k, s in enumerate(v["exts"])]
+                f.write(json.dumps(h, separators=(",", ":")) + "\n")
+                nh += 1
+    print("replayed", n, "vectors,", nh, "histories")
 
 
 # ------------------------------------------------------------------------------------------------ random larger objects
